@@ -79,9 +79,9 @@ fn main() {
     add(run(dn_p1::<u64>(), 2));
     add(run(dn_p2::<u8>(), 2));
     add(run(dn_p3::<f64>(), 2));
-    add(run(d_v3::<char>(), 2));
+    add(run(dc_v3::<char>(), 2));
     add(run(d_p2::<Tag>(), 2));
-    add(run(d_v4::<&'static str>(), 1));
+    add(run(dc_v4::<&'static str>(), 1));
     add(run(d_m2::<u8>(), 2));
     add(run(d_m3::<i32>(), 1));
     add(run(df_m2::<f64>(), 2));
